@@ -15,6 +15,41 @@ pub(crate) mod proofs {
         m
     }
 
+    // ---- in-place function contracts (cfg_attr(kani, kani::ensures(..)) lines on the REAL split_joined / join_split in /repo) ----
+    // @props C19 contract
+    #[kani::proof_for_contract(AtomicIncrementalAverage64::split_joined)]
+    fn contract_split_joined() {
+        // ensures: counter == low 32 bits, average bits == high 32 bits -- for EVERY 64-bit word
+        let _ = AtomicIncrementalAverage64::split_joined(kani::any());
+    }
+
+    // @props C19 contract
+    #[kani::proof_for_contract(AtomicIncrementalAverage64::join_split)]
+    fn contract_join_split() {
+        // ensures: low 32 bits == counter, high 32 bits == average's bit pattern -- for EVERY (u32, f32 bit pattern incl. NaN / inf)
+        let bits: u32 = kani::any();
+        let _ = AtomicIncrementalAverage64::join_split(kani::any(), f32::from_bits(bits));
+    }
+
+    // @props C19 contract
+    #[kani::proof] #[kani::unwind(2)]
+    #[kani::stub_verified(AtomicIncrementalAverage64::split_joined)]
+    #[kani::stub_verified(AtomicIncrementalAverage64::join_split)]
+    fn atomic_compute_against_the_contracts_only() {
+        // MODULAR: atomic_compute and probe are checked against the CONTRACTS of split_joined / join_split (their bodies are replaced by
+        // 'any value satisfying the ensures clause'): new word = join(f(split(current word))), one successful compare-exchange, nothing else
+        let w: u64 = kani::any();
+        let m = with_word(w);
+        let add: u32 = kani::any();
+        m.atomic_compute(Relaxed, Relaxed, |c, a| (c.wrapping_add(add), a));
+        let w2 = unsafe { m.joined.load(Relaxed) };
+        assert!(w2 % (1u64 << 32) == ((w % (1u64 << 32)) as u32).wrapping_add(add) as u64, "atomic_compute (modular): count' = f(count) in the low half");
+        assert!(w2 >> 32 == w >> 32,                                         "atomic_compute (modular): the average's bits are carried over unchanged in the high half");
+        let (c, a) = m.probe();
+        assert!(c as u64 == w2 % (1u64 << 32) && a.to_bits() as u64 == w2 >> 32, "probe (modular): count and average are the two halves of ONE word");
+        kani::cover!(true, "end of harness reachable (vacuity guard)");
+    }
+
     // @props C19
     #[kani::proof]
     fn split_then_join_is_identity_on_every_word() {
